@@ -414,6 +414,10 @@ _META_CUR = {
     "Light": [(("V1", "A"), "Ok"), (("V1", "B"), "Idle"), (("V2", "A"), "Alert")],
     "BLOB": [],
 }
+_META_EARLIER = {
+    "Number": lambda v: v + 100.0, "Text": lambda v: "earlier-" + v, "Switch": lambda v: "On", "Light": lambda v: "Busy", "BLOB": lambda v: v,
+}
+_HIST_NOTE = {"set": "", "render-then-reset": " (an earlier value was rendered before, then the value was refreshed with reset_value)", "render-then-set": " (an earlier value was rendered before, then the value was set again)"}
 _META_NOW = {
     "Number": {("V1", "A"): 4.25, ("V1", "B"): -1.5, ("V2", "A"): 12.5},
     "Text": {("V1", "A"): "curA", ("V1", "B"): "curB", ("V2", "A"): "curA2"},
@@ -451,7 +455,7 @@ def rule_meta(ctx):
             f = vcls.find_method(meth)
             inst = f"{f.short}[{kind}Vector]"
             bad = False
-            for vname, want in _META_VEC.items():
+            for vname, want, hist in [(a_, b_, h_) for a_, b_ in _META_VEC.items() for h_ in ("set", "render-then-reset", "render-then-set")]:
                 def run(it: Interp):
                     drivers = build_drivers(it, p, names=(("DevA", "DEVA"),), src=src)
                     vec = [o for o in _reachable_objs(drivers["DEVA"]) if o.label == f"vec:DEVA.{vname}"]
@@ -461,9 +465,22 @@ def rule_meta(ctx):
                     by = {o.label: o for o in _reachable_objs(drivers["DEVA"])}
                     for vn_, st_ in _META_CUR_STATE.items():
                         it.run_function(Fn(vcls.find_setter("state_"), by[f"vec:DEVA.{vn_}"]), [Const(st_)], {})
+                    if hist != "set":
+                        # an earlier value is set and rendered first (anything a renderer memoises is warm), then the
+                        # value moves on through the public setter or through reset_value (a Read handler's refresh)
+                        for (vn_, en_), val_ in _META_CUR[kind]:
+                            el = by[f"el:DEVA.{vn_}.{en_}"]
+                            it.run_function(Fn(el.cls.find_setter("value"), el), [Const(_META_EARLIER[kind](val_))], {})
+                        for o_ in by.values():
+                            if o_.label.startswith("vec:DEVA."):
+                                for m_ in ("to_def_message", "to_set_message"):
+                                    it.run_function(Fn(vcls.find_method(m_), o_), [], {})
                     for (vn_, en_), val_ in _META_CUR[kind]:
                         el = by[f"el:DEVA.{vn_}.{en_}"]
-                        it.run_function(Fn(el.cls.find_setter("value"), el), [Const(val_)], {})
+                        if hist == "render-then-reset":
+                            it.run_function(Fn(el.cls.find_method("reset_value"), el), [Const(val_)], {})
+                        else:
+                            it.run_function(Fn(el.cls.find_setter("value"), el), [Const(val_)], {})
                     del it.events[:]
                     return it.run_function(Fn(f, vec[0]), [], {})
 
@@ -516,10 +533,10 @@ def rule_meta(ctx):
                             if kind == "Number":
                                 okv = isinstance(y, Term) and is_call(y, func="num_to_str") and len(y.args[1]) == 2 and all(isinstance(a_, Const) for a_ in y.args[1]) and y.args[1][0].v == own and y.args[1][1].v == els[ekey]["format"]
                                 if not okv:
-                                    ctx.violated("C07.META", inst, f"the number of {vname}.{en} is rendered as {show(y)[:70]}, expected num_to_str({own!r}, {els[ekey]['format']!r}) - its own value in its own format", fi=f, text=f"Number:{meth}:value-format")
+                                    ctx.violated("C07.META", inst, f"the number of {vname}.{en} is rendered as {show(y)[:70]}, expected num_to_str({own!r}, {els[ekey]['format']!r}) - its own value in its own format" + _HIST_NOTE[hist], fi=f, text=f"Number:{meth}:value-format:{hist}")
                                     bad = True
                             elif not (isinstance(y, Const) and y.v == own):
-                                ctx.violated("C07.META", inst, f"{x.args[0].ci.name}(value=...) of element {vname}.{en} carries {show(y)[:50]}, the element's own value is {own!r}", fi=f, text=f"{kind}:{meth}:el-value")
+                                ctx.violated("C07.META", inst, f"{x.args[0].ci.name}(value=...) of element {vname}.{en} carries {show(y)[:50]}, the element's own value is {own!r}" + _HIST_NOTE[hist], fi=f, text=f"{kind}:{meth}:el-value:{hist}")
                                 bad = True
             if not bad:
                 ctx.holds("C07.META", inst, "every metadata field and every part carries the property's / element's own values", fi=f)
